@@ -15,7 +15,7 @@ from sx import rt
 from sx.core import ctx
 from sx.terms import PChar
 
-BOUNDS = {"quick": {"countries": "one per distinct table signature", "positions": "first, last, both sides of every token boundary, 1 seeded interior position per token; substitution and adjacent transposition (the check-digit/BBAN boundary swap of digit-or-letter structures for a seeded third of them)"},
+BOUNDS = {"quick": {"countries": "one per distinct per-position class string of the effective table", "positions": "first, last, both sides of every token boundary, 1 seeded interior position per token; substitution and adjacent transposition (the check-digit/BBAN boundary swap of digit-or-letter structures for a seeded third of them)"},
           "thorough": {"countries": "all", "positions": "every position >= 2 for structures without digit-or-letter tokens; for the others token boundaries, first/last and 3 seeded interior positions per token (each position is case-split over the expanded width of what follows); substitution and adjacent transposition"}}
 STUBS = ["as C01"]
 ASSUMPTIONS = ["kind-changing errors are outside the statement (rejected by the class check: C01)"]
@@ -44,7 +44,15 @@ def positions_for(cc, tier, seed):
 
 def jobs(tier, seed):
     out = []
-    for cc in H.country_jobs(tier, seed):
+    ccs = H.country_jobs(tier, seed)
+    if tier != "thorough":
+        # the error-detection argument only depends on the per-position classes: one country per class string
+        groups = {}
+        for cc in sorted(table.countries()):
+            groups.setdefault(table.classes(cc), []).append(cc)
+        rnd0 = random.Random(seed)
+        ccs = sorted(rnd0.choice(g) for g in groups.values())
+    for cc in ccs:
         ps = positions_for(cc, tier, seed)
         heavy = "c" in table.classes(cc)  # boundary swap with symbolic widths: minutes per job
         rnd = random.Random(f"{seed}-heavy-{cc}")
